@@ -6,6 +6,7 @@ import "strings"
 
 func init() {
 	vxRegister("H01pad", H01pad)
+	vxRegister("H01hy", H01hy)
 	vxRegister("H02pad", H02pad)
 	vxRegister("H07pad", H07pad)
 }
@@ -59,6 +60,27 @@ func H01pad() {
 			found = true
 			vxAssert("planted-confidence-1", m.Confidence == 1.0)
 			vxAssert("planted-lines", m.StartLine == 2 && m.EndLine == 2)
+		}
+	}
+	vxAssert("planted-copy-found-whole", found)
+	vxCover("end")
+}
+
+// H01hy: a corpus document that itself contains a hyphenated line break with an indented continuation
+// line, planted verbatim so that the break, the indentation or the continuation meets the buffer boundary.
+func H01hy() {
+	raw := "alpha soft-\n      ware beta gamma delta epsilon zeta"
+	t := []float64{0.7, 0.8}[vxChoice(2)] // 7 words: at least the minimum run length for both
+	c := NewClassifier(t)
+	c.AddContent("License", "Hy", "v.txt", []byte(raw))
+	pad := 990 + vxChoice(40)
+	in := strings.Repeat(" ", pad) + "\n" + raw + "\nqqq rrr sss ttt and more text to fill the buffer\n"
+	found := false
+	for _, m := range c.Match([]byte(in)).Matches {
+		if m.Name == "Hy" {
+			found = true
+			vxAssert("planted-confidence-1", m.Confidence == 1.0)
+			vxAssert("planted-span", m.StartTokenIndex == 0 && m.EndTokenIndex == 6)
 		}
 	}
 	vxAssert("planted-copy-found-whole", found)
